@@ -602,6 +602,60 @@ func ruleReadOnlyNeverMutates(p *Prog, r *Report, rule string) {
 		}
 		checkGuard(p, r, GuardSpec{Rule: "refuses-when-readonly", Fn: fn, Target: osMut, TargetDesc: "the filesystem mutation", Atoms: []Atom{ro}, G: func(a []bool) bool { return !a[0] }, GDesc: "¬fs.readOnly", MinTargets: 1})
 	}
+	// exhaustively: EVERY method of fileStorage that mutates the filesystem (directly, or through the
+	// internal helpers setMeta / rename / writeFileSynced / syncDir / doLog) does so only when the
+	// storage is not read-only — including methods that "only read", like GetMeta, which repairs
+	// CURRENT as a side effect
+	mutCall := func(in ssa.Instruction) bool {
+		c, ok := in.(*ssa.Call)
+		if !ok {
+			return false
+		}
+		f := staticCallee(&c.Call)
+		if f == nil || f.Pkg == nil {
+			return false
+		}
+		if f.Pkg.Pkg.Path() == "os" {
+			switch f.Name() {
+			case "Remove", "Rename", "Create", "Mkdir", "MkdirAll", "RemoveAll":
+				return true
+			case "OpenFile":
+				// only when opened for writing: flag argument is not the constant O_RDONLY
+				if k, isC := constInt(c.Call.Args[1]); isC && k == 0 {
+					return false
+				}
+				return true
+			}
+		}
+		switch fnName(f) {
+		case "(*leveldb/storage.fileStorage).setMeta", "leveldb/storage.rename", "leveldb/storage.writeFileSynced":
+			return true
+		}
+		return false
+	}
+	internalHelpers := map[string]string{
+		"(*leveldb/storage.fileStorage).setMeta": "internal: every caller is checked (it has no read-only test of its own)",
+		"(*leveldb/storage.fileStorage).doLog":   "internal: reached only through log()/Log(), which are checked",
+		"(*leveldb/storage.fileStorage).Close":   "teardown: closes the LOG file and releases the lock",
+	}
+	nm := 0
+	for _, fn := range p.SrcFuncs("leveldb/storage") {
+		recv := fn.Signature.Recv()
+		if recv == nil || namedOf(recv.Type()) != T {
+			continue
+		}
+		if countInstr(fn, mutCall) == 0 {
+			continue
+		}
+		if _, ok := internalHelpers[fnName(fn)]; ok {
+			continue
+		}
+		nm++
+		r.Fn(fnName(fn))
+		checkGuard(p, r, GuardSpec{Rule: "mutation-only-when-writable", Fn: fn, Target: mutCall, TargetDesc: "a filesystem mutation (create/remove/rename/write, or setMeta)", Atoms: []Atom{ro}, G: func(a []bool) bool { return !a[0] }, GDesc: "¬fs.readOnly", MinTargets: 1})
+	}
+	r.Site(1)
+	r.Check(nm >= 5, "leveldb/storage.fileStorage", "mutating-methods", "the mutating methods of the file storage were found (SetMeta, GetMeta's repair, Create, Remove, Rename, …)", fmt.Sprintf("%d methods with filesystem mutations", nm), "")
 	// the log file is not written in read-only mode
 	for _, name := range []string{"(*fileStorage).Log", "(*fileStorage).log"} {
 		if fn := resolveFn(p, r, "leveldb/storage", name); fn != nil {
